@@ -9,7 +9,7 @@ budget = int(sys.argv[2]) if len(sys.argv) > 2 else 600
 rf = json.load(open(f))
 mod = runner.load(rf["property"])
 target = (rf["property"], rf["oracle"])
-small, v, n = runner.shrink(mod, rf["unit"], target, budget_runs=budget, budget_s=90, tier=rf.get("tier", "quick"))
+small, v, n = runner.shrink(mod, rf["unit"], target, budget_runs=budget, budget_s=90, tier=rf.get("tier", "quick"), fingerprint=rf["fingerprint"])
 if v is None:
     print("does not reproduce"); sys.exit(1)
 render, digest, _ = runner.render_unit(mod, small, rf.get("tier", "quick"))
